@@ -26,6 +26,7 @@ worker() {
     if ! git -C "$slot/repo" apply "$PWD/seeded/$name/patch.diff" 2>/dev/null; then echo "$name: patch does not apply"; continue; fi
     out=$(cd "$slot/verif" && ./check "$prop" --tier quick 2>&1)
     git -C "$slot/repo" checkout -q -- .
+    [ -n "${PAR_KEEP_OUT:-}" ] && { mkdir -p "$PAR_KEEP_OUT"; echo "$out" | grep -v "^ *Compiling" | tail -40 > "$PAR_KEEP_OUT/$name.log"; }
     if echo "$out" | grep -q "^VIOLATION property=[A-Z0-9]* replay=[^ ]*$"; then v="CAUGHT(direct)";
     elif echo "$out" | grep -q "no-failing-input-found"; then v="CAUGHT(no-failing-input-found)";
     elif echo "$out" | grep -q "^PASS"; then v="MISSED"; else v="?? $(echo "$out" | tail -1 | cut -c1-120)"; fi
